@@ -1060,3 +1060,40 @@ def rule_dedup_per_parent(db: ProgramDB) -> List[Instance]:
         out.append(inst("DEDUP-PER-PARENT", VIOLATION, m, f"{m.short}[per-parent store]",
                         "the duplicate test keeps one store of seen rows per node, not one per parent"))
     return out
+
+
+# ---------------------------------------------------------------------------------- DEDUP-TRACKERS-DISTINCT
+def rule_dedup_trackers_distinct(db: ProgramDB) -> List[Instance]:
+    """True rows and false rows of a node are remembered APART (the duplicate test picks the tracker by the truth of the row): the
+    mapping {True: tracker, False: tracker} holds two objects.  Built with one tracker expression evaluated once - dict.fromkeys(keys,
+    SeenSet()), a name used for both values - a false row marks the same values as seen among the true rows, and the complement of a
+    condition (whose rows are the false rows of the original) loses the assignments the original condition has seen."""
+    out = []
+    n = 0
+    ss = db.cls("SeenSet")
+
+    def is_tracker_ctor(e) -> bool:
+        return isinstance(e, ast.Call) and (dotted(e.func) or "").split(".")[-1] == ss.name
+    for fn in sorted(db.all_functions(), key=lambda f: f.qualname):
+        for e in own_nodes(fn.node):
+            # {True: X, False: Y}
+            if isinstance(e, ast.Dict) and len(e.keys) == 2 and all(isinstance(k, ast.Constant) and isinstance(k.value, bool) for k in e.keys):
+                n += 1
+                a, b = e.values
+                ok = is_tracker_ctor(a) and is_tracker_ctor(b)
+                shared = isinstance(a, ast.Name) and isinstance(b, ast.Name) and a.id == b.id
+                if not ok and not shared and not (isinstance(a, ast.Name) or isinstance(b, ast.Name)):
+                    continue           # a mapping by truth of something else
+                out.append(inst("DEDUP-TRACKERS-DISTINCT", HOLDS if ok else VIOLATION, fn, f"{fn.short}[{unparse(e)[:50]}]",
+                                "two trackers, one per truth" if ok else
+                                f"`{unparse(e)}` uses one object for the true and the false rows: a false row marks its values as seen among the true rows", line=e.lineno))
+            if isinstance(e, ast.Call) and (dotted(e.func) or "").endswith("fromkeys") and len(e.args) == 2 and is_tracker_ctor(e.args[1]):
+                n += 1
+                out.append(inst("DEDUP-TRACKERS-DISTINCT", VIOLATION, fn, f"{fn.short}[{unparse(e)[:50]}]",
+                                f"`{unparse(e)}` evaluates `{unparse(e.args[1])}` once and stores the same tracker under every key: the true rows and the false rows "
+                                f"of a node share one set of seen values - a value seen in a false row (the left side of an or_, every row below a negated "
+                                f"conjunction) suppresses the true row with the same values later on, and the complement loses assignments", line=e.lineno))
+    if n < 2:
+        raise AnalysisError(f"only {n} by-truth tracker mappings found in functions (2 confirmed by reading)")
+    return out
+
